@@ -400,7 +400,107 @@ def renderer(repo, res, classes):
     if n_calls < 8:
         raise AnalysisError("only %d nullable query calls found in the obstacle drawers (8+ confirmed)" % n_calls)
 
-    for name in ["draw_static_obstacle", "draw_dynamic_obstacle", "draw_phantom_obstacle", "draw_environment_obstacle"]:
+    # the three short drawers are decided by evaluation: which time steps are asked of the model, and what is drawn
+    from ..strdom import Lenient
+
+    TB, TE = 3, 7  # an adversarially unspecial window: begin and end differ from 0, 1 and from each other by more than one
+    dmod = repo.mod("commonroad/visualization/draw_params.py")
+
+    def time_world(kind, group, draw_shape, draw_occs, present=True):
+        asked, drawn = [], []
+
+        def occupancy_at_time(a, k):
+            t = a[0] if a else k.get("time_step")
+            asked.append(t)
+            if not present:
+                return NONE
+            return Obj(None, {"draw": PyFunc(lambda a2, k2, t=t: (drawn.append((t, list(a2) + list(k2.values()))), NONE)[1], "draw")}, closed=True, label="occupancy at %s" % show(t))
+
+        occ_params = Obj(None, {"draw_occupancies": draw_occs}, closed=False, label="occupancy parameters")
+        gp = Obj(dmod.classes.get(group), {"time_begin": TB, "time_end": TE, "draw_shape": draw_shape, "occupancy": occ_params}, label="parameters")
+        st = Obj(None, {"is_uncertain_position": False}, closed=True, label="initial state")
+        ob = Obj(omod.classes[kind], {"occupancy_at_time": PyFunc(occupancy_at_time, "occupancy_at_time"), "initial_state": st}, label=kind)
+        return ob, gp, occ_params, asked, drawn
+
+    for name, kind, group, cases in (
+        ("draw_static_obstacle", "StaticObstacle", "StaticObstacleParams", [(True, False, [TB])]),
+        ("draw_environment_obstacle", "EnvironmentObstacle", "EnvironmentObstacleParams", [(True, False, [TB])]),
+        ("draw_phantom_obstacle", "PhantomObstacle", "PhantomObstacleParams", [(True, True, list(range(TB, TE))), (True, False, [TB]), (False, True, list(range(TB, TE))), (False, False, [])]),
+    ):
+        fn = r.methods[name]
+        qn = "MPRenderer." + name
+        for draw_shape, draw_occs, want_steps in cases:
+            label = "shape %s, further occupancies %s" % ("on" if draw_shape else "off", "on" if draw_occs else "off") if len(cases) > 1 else "the shape"
+            ob, gp, occ_params, asked, drawn = time_world(kind, group, draw_shape, draw_occs)
+            me = Obj(r, {"draw_params": Obj(None, {}, closed=True, label="renderer parameters")}, label="renderer")
+            ev = Ev(repo)
+            ev.pure_modules = {"np", "numpy", "math"}
+            bad = []
+            try:
+                ev.call_fn(ev.bind(fn, r, me), [ob, gp], {}, fn)
+                steps = [t for t, _a in drawn]
+                if any(not isinstance(t, int) for t in steps) or sorted(steps) != want_steps:
+                    bad.append("draws the occupancies at %s, the selected window [%d, %d) with these switches asks for %s" % ([show(t) for t in steps], TB, TE, want_steps))
+                for t, a in drawn:
+                    if not (len(a) == 2 and a[0] is me and a[1] is occ_params):
+                        bad.append("the occupancy at %s is drawn with %s, expected (renderer, occupancy parameters)" % (show(t), [show(x) for x in a]))
+                        break
+            except _Raise as x:
+                bad.append("raises %s" % x.what)
+            except Undecided as x:
+                raise AnalysisError("%s [%s]: %s" % (qn, label, x))
+            res.check("D-TIME", "%s [%s]: exactly the occupancies of the selected time steps are drawn, once each" % (name, label), not bad, m, fn, "%s [%s]: %s" % (name, label, "; ".join(bad[:2])), "the obstacle is shown at another time step than the selected one, or occupancies outside the selected window are drawn", qualname=qn)
+
+    # --- D-PATCH: the shape primitives hand the model's geometry to matplotlib unchanged.  matplotlib's interface is
+    # the fixed part: patches.Polygon(xy, closed=..) takes the vertex ring, patches.Ellipse(xy, width, height) takes the
+    # centre and the *full* extents along the axes, i.e. twice the radii.
+    from ..strdom import Ctor, Sym, linear_of
+
+    def patch_of(name, args, label):
+        fn_ = r.methods.get(name)
+        if fn_ is None:
+            raise AnalysisError("renderer method %s missing" % name)
+        me = Obj(r, {"draw_params": Obj(None, {}, closed=True, label="renderer parameters"), "obstacle_patches": ListV([])}, label="renderer")
+        sp = Lenient("shape parameters")
+        ev = Ev(repo)
+        ev.pure_modules = {"np", "numpy", "math", "mpl", "matplotlib"}
+        try:
+            ev.call_fn(ev.bind(fn_, r, me), list(args) + [sp], {}, fn_)
+        except _Raise as x:
+            return fn_, None, "raises %s" % x.what
+        except Undecided as x:
+            raise AnalysisError("MPRenderer.%s: %s" % (name, x))
+        ps = me.fields["obstacle_patches"].items
+        if len(ps) != 1 or not isinstance(ps[0], Ctor):
+            return fn_, None, "adds %s to the obstacle patches" % [show(x) for x in ps]
+        return fn_, ps[0], None
+
+    vs = Sym("vertices", "num")
+    for name in ("draw_polygon", "draw_rectangle"):
+        fn_, pt, bad = patch_of(name, [vs], name)
+        if bad is None:
+            a = list(pt.args.items())
+            closed = pt.args.get("closed", a[1][1] if len(a) > 1 and a[1][0] == "arg1" else True)
+            if not (pt.name.endswith("patches.Polygon") and a and a[0][1] is vs):
+                bad = "adds %s" % show(pt)
+            elif closed is not True:
+                bad = "adds an open polyline (closed=%s)" % show(closed)
+        res.check("D-PATCH", "%s: one closed matplotlib polygon of exactly the given vertices" % name, bad is None, m, fn_, "%s %s" % (name, bad), "the drawn outline is not the vertex ring of the shape", qualname="MPRenderer." + name)
+    c_, rx, ry = Sym("center", "num"), Sym("radius_x", "num"), Sym("radius_y", "num")
+    fn_, pt, bad = patch_of("draw_ellipse", [c_, rx, ry], "draw_ellipse")
+    if bad is None:
+        a = pt.args
+        xy = a.get("xy", a.get("arg0"))
+        w, h = a.get("width", a.get("arg1")), a.get("height", a.get("arg2"))
+        if not pt.name.endswith("patches.Ellipse") or xy is not c_:
+            bad = "adds %s" % show(pt)
+        elif linear_of(w) != {"radius_x": 2.0} or linear_of(h) != {"radius_y": 2.0}:
+            bad = "gives matplotlib the extents (%s, %s); the ellipse with radii (radius_x, radius_y) is (2 * radius_x) wide and (2 * radius_y) high" % (show(w), show(h))
+        elif a.get("angle", 0) not in (0, 0.0):
+            bad = "rotates the ellipse by %s" % show(a.get("angle"))
+    res.check("D-PATCH", "draw_ellipse: matplotlib ellipse at the centre, 2 * radius_x wide and 2 * radius_y high", bad is None, m, fn_, "draw_ellipse %s" % bad, "a circle is drawn with another size than the one the model reports", qualname="MPRenderer.draw_ellipse")
+
+    for name in ["draw_dynamic_obstacle"]:
         fn = r.methods[name]
         qn = "MPRenderer." + name
         rd = ReachingDefs(fn)
@@ -498,6 +598,7 @@ def run(repo, res, tier):
     res.rule("D-GROUP", "draw methods select the parameter group of their kind", 30)
     res.rule("D-NULLSAFE", "possibly absent occupancies / states are dereferenced under a test", 6)
     res.rule("D-TIME", "drawn occupancies are those at the selected time steps", 10)
+    res.rule("D-PATCH", "shape primitives hand the geometry to matplotlib unchanged", 3)
     res.rule("D-LANELETS", "lanelet drawing loop and id filter", 4)
     classes = propagate(repo, res)
     renderer(repo, res, classes)
